@@ -1,6 +1,7 @@
 mod adapter;
 mod cells;
 mod craft;
+mod fuzz;
 mod fw;
 mod job;
 mod pool;
@@ -144,6 +145,11 @@ fn main() {
                     std::process::exit(2);
                 }
             };
+            if tier == Tier::Thorough && !relstage::is_child() && ["C01", "C02", "C04", "C05", "C06", "C09", "C10"].contains(&id.as_str()) {
+                let mut extra = std::mem::take(&mut rep.extra);
+                fuzz::stage(&ctx, &id, ctx.scale(150) as u64, &mut rep.stats, &mut extra);
+                rep.extra = extra;
+            }
             relstage::run(&ctx, &id, &mut rep);
             let code = fw::finish(&ctx, &id, rep, &sc);
             std::process::exit(code);
@@ -159,6 +165,10 @@ fn main() {
                 Some("miri-mt") => sanit::miri_stage_with(&ctx, "dbgmt", 16, ctx.scale(48), 3),
                 Some("tsan") => sanit::tsan_stage(&ctx, 1),
                 Some("asan") => sanit::asan_stage(&ctx),
+                Some("fuzz") => {
+                    fuzz::stage(&ctx, args.get(3).map(|s| s.as_str()).unwrap_or("C06"), args.get(4).and_then(|s| s.parse().ok()).unwrap_or(30), &mut st, &mut extra);
+                    sanit::StageResult::empty()
+                }
                 _ => usage(),
             };
             r.apply("STAGE", &mut st, &mut extra);
@@ -192,7 +202,8 @@ fn main() {
             let s = v["seed"].as_u64().unwrap_or_else(seed);
             let tier = if v["tier"].as_str() == Some("thorough") { Tier::Thorough } else { Tier::Quick };
             let ctx = Ctx::new(tier, s);
-            match replay_prop(&id, &ctx, &v["job"]) {
+            let replayed = if v["job"]["fam"].as_str() == Some("fuzz-artifact") { fuzz::replay(&ctx, &id, &v["job"]) } else { replay_prop(&id, &ctx, &v["job"]) };
+            match replayed {
                 Some(st) => {
                     if st.violations.is_empty() && st.known.is_empty() {
                         println!("replay: property {id} held on this execution ({} evaluations)", st.evaluations);
